@@ -193,29 +193,46 @@ def callAction (cfg : Config σ τ ε) (action : Nat) (st : LState σ) : StepOut
     | .ok t => .ret (some (.tok ms t me)) st
     | .error e => .ret (some (.custom ms e)) st
 
+/-- What one pass through the state code decides, before the semantic action (if any) is
+called: the generated code is `finish (scan ..)`. -/
+inductive Outcome (σ : Type) where
+  /-- call semantic action `a` in lexer state `st` (`generate_semantic_action_call`) -/
+  | act (a : Nat) (st : LState σ)
+  /-- `return Some(Err(InvalidToken at loc))`, lexer state `st` -/
+  | err (loc : Loc) (st : LState σ)
+  /-- `return None` -/
+  | fin (st : LState σ)
+  /-- fall out of the `match` with `__state` set (end-of-input `Trans::Trans`; excluded by well-formedness) -/
+  | goto (st : LState σ)
+
+def finish (cfg : Config σ τ ε) : Outcome σ → StepOut σ τ ε
+  | .act a st => callAction cfg a st
+  | .err loc st => .ret (some (.invalid loc)) st
+  | .fin st => .ret none st
+  | .goto st => .cont st
+
 /-- `generate_rhs_code`: `reset_accepting_state()` then the call. -/
-def rhsCode (cfg : Config σ τ ε) (action : Nat) (st : LState σ) : StepOut σ τ ε :=
-  callAction cfg action { st with last := none }
+def rhsCode (action : Nat) (st : LState σ) : Outcome σ :=
+  .act action { st with last := none }
 
 /-- The `fail` closure of `generate_state`. -/
-def failCode (cfg : Config σ τ ε) (d : DState Trans) (st : LState σ) : StepOut σ τ ε :=
+def failCode (d : DState Trans) (st : LState σ) : Outcome σ :=
   if d.backtrack || !d.accepting.isEmpty then
     -- `self.0.backtrack()`
     match st.last with
     | none =>
-      let err := Item.invalid st.curStart
-      .ret (some err) { st with last := none, state := 0, initial := 0, curStart := st.curEnd }
+      .err st.curStart { st with last := none, state := 0, initial := 0, curStart := st.curEnd }
     | some sv =>
-      callAction cfg sv.action
+      .act sv.action
         { st with last := none, done := false, curStart := sv.start, curEnd := sv.stop, iter := sv.iter }
   else
-    .ret (some (.invalid st.curStart)) { st with curStart := st.curEnd, state := 0, initial := 0 }
+    .err st.curStart { st with curStart := st.curEnd, state := 0, initial := 0 }
 
 /-- `test_right_ctxs(accs, default)` -/
 def testRightCtxs (cfg : Config σ τ ε) (accs : List Acc) (st : LState σ)
-    (dflt : Unit → StepOut σ τ ε) : StepOut σ τ ε :=
+    (dflt : Unit → Outcome σ) : Outcome σ :=
   match firstOK (fun i => ctxOK cfg i st.iter) accs with
-  | some a => rhsCode cfg a st
+  | some a => rhsCode a st
   | none => dflt ()
 
 /-- The `set_accepting_state` chain at the top of a state's code. -/
@@ -225,36 +242,37 @@ def setAccepting (cfg : Config σ τ ε) (d : DState Trans) (st : LState σ) : L
   | none => st
 
 /-- Code of state `s` (original index in the simplified DFA), executed with the iterator at
-`iter` (= `st.iter`). Structural recursion on the iterator: a transition to an inlined state runs
-its code at once; a transition to any other state stores its number in `__state` and goes round
-the loop, which dispatches to that state's arm — `nextState` resolves both. -/
-def execState (cfg : Config σ τ ε) (nextState : Nat → Option Nat) :
-    Nat → List Nat → LState σ → StepOut σ τ ε
+`iter` (= `st.iter`), up to the point where a semantic action is called or an item returned.
+Structural recursion on the iterator: a transition to an inlined state runs its code at once; a
+transition to any other state stores its number in `__state` and goes round the loop, which
+dispatches to that state's arm — `nextState` resolves both. -/
+def scan (cfg : Config σ τ ε) (nextState : Nat → Option Nat) :
+    Nat → List Nat → LState σ → Outcome σ
   | s, [], st =>
     let d := cfg.dfa.st s
     let st := setAccepting cfg d { st with iter := [] }
     -- `self.0.next()` returned `None`
     let st := { st with done := true }
-    let dflt : Unit → StepOut σ τ ε := fun _ =>
-      if s = 0 then .ret none st else failCode cfg d st
+    let dflt : Unit → Outcome σ := fun _ =>
+      if s = 0 then .fin st else failCode d st
     match d.eoi with
     | some (.accept accs) => testRightCtxs cfg accs st dflt
-    | some (.goto t) => .cont { st with state := renumber (inlinedStates cfg.dfa) t }
+    | some (.goto t) => .goto { st with state := renumber (inlinedStates cfg.dfa) t }
     | none => dflt ()
   | s, c :: rest, st =>
     let d := cfg.dfa.st s
     let st := setAccepting cfg d { st with iter := c :: rest }
     -- `self.0.next()` returned `Some(c)`
     let st := { st with iter := rest, curEnd := st.curEnd.advance cfg.width c }
-    let fail : Unit → StepOut σ τ ε := fun _ => failCode cfg d st
-    let goto (t : Nat) : StepOut σ τ ε :=
-      if inlinedAt cfg.dfa t then execState cfg nextState t rest st
+    let fail : Unit → Outcome σ := fun _ => failCode d st
+    let goto (t : Nat) : Outcome σ :=
+      if inlinedAt cfg.dfa t then scan cfg nextState t rest st
       else
         let n := renumber (inlinedStates cfg.dfa) t
         match nextState n with
-        | some t' => execState cfg nextState t' rest { st with state := n }
-        | none => .cont { st with state := n }
-    let dflt : Unit → StepOut σ τ ε := fun _ =>
+        | some t' => scan cfg nextState t' rest { st with state := n }
+        | none => .goto { st with state := n }
+    let dflt : Unit → Outcome σ := fun _ =>
       match d.any with
       | some (.goto t) => goto t
       | some (.accept accs) => testRightCtxs cfg accs st fail
@@ -266,6 +284,11 @@ def execState (cfg : Config σ τ ε) (nextState : Nat → Option Nat) :
     | some (.goto t) => goto t
     | some (.accept accs) => testRightCtxs cfg accs st dflt
     | none => dflt ()
+
+/-- Code of a `match self.0.__state` arm. -/
+def execState (cfg : Config σ τ ε) (nextState : Nat → Option Nat) (s : Nat) (iter : List Nat)
+    (st : LState σ) : StepOut σ τ ε :=
+  finish cfg (scan cfg nextState s iter st)
 
 /-- The `loop { if done {return None}; match __state {..} }` of `Iterator::next`. Each round
 either returns or runs an action that consumed at least one character (or handled the end of
